@@ -776,7 +776,7 @@ class LeanEmitter:
         for name in sorted(M.chains):
             o.append('def %s : List (Int × List Int) := [%s]' % (
                 name, ', '.join('(%d, [%s])' % (t, ', '.join(str(x) for x in ops)) for t, ops in M.chains[name])))
-        o.append('def allChains : List (String × List (Int × List Int)) := [%s]' % ', '.join('("%s", %s)' % (n, n) for n in sorted(M.chains)))
+        o.append('def allChains : List (List (Int × List Int)) := [%s]' % ', '.join(sorted(M.chains)))
         o.append('\n/-! ### functions -/')
         for fn in M.order:
             f = M.fir[fn]
@@ -785,13 +785,13 @@ class LeanEmitter:
             o.append('/-- `%s.%s` -/' % (M.path.name[:-3], f['src']))
             o.append('def %s %s : %s :=\n%s\n' % (self.fname(fn), ps, rt, self.S(f['body'], 1, f['kind'])))
         # read-sets of the sums, for `indices_defined`
-        o.append('/-! ### which entries of which power array each sum reads: (function, chain, multiplier, index) per table row -/')
+        o.append('/-! ### which entries of which power array each sum reads: per sum and array: (chain, [(multiplier, index) per table row]) -/')
         reads = sum_reads(M)
         for fn in sorted(reads):
             for k, (chain, rows) in enumerate(reads[fn]):
-                o.append('def reads_%s_%d : String × List (Int × Int) := ("%s", [%s])' % (
+                o.append('def reads_%s_%d : List (Int × List Int) × List (Int × Int) := (%s, [%s])' % (
                     self.fname(fn), k, chain, ', '.join('(%d, %d)' % r for r in rows)))
-        o.append('def allReads : List (String × List (Int × Int)) := [%s]' % ', '.join(
+        o.append('def allReads : List (List (Int × List Int) × List (Int × Int)) := [%s]' % ', '.join(
             'reads_%s_%d' % (self.fname(fn), k) for fn in sorted(reads) for k in range(len(reads[fn]))))
         o.append('\nend %s\n' % self.ns)
         return '\n'.join(o)
